@@ -430,23 +430,16 @@ def rule_greedy_disjoint(ctx):
                 if r[0] == "agg" and str(r[1]).endswith("RangeFrom::RangeFrom") and isinstance(r[2], dict) and tuple(strip_casts(r[2].get("start", ("?",)))[:2]) == ("const", 1):
                     return True
         return False
+    # every forward view `haystack[X..]` taken in the greedy matcher (loop source, `position` receiver, re-slicing, in the
+    # function itself or in helpers folded into it) is a place where the search for needle[1..] (re)starts
     fwd = []
-    for h, body, nxt in for_loops(fn):
-        if nxt is None:
+    for bi, t in fn.calls(lambda t: callee(t).endswith("::index")):
+        if len(t["args"]) < 2 or not is_param(fn.expr_of_operand(t["args"][0]), names["haystack"]):
             continue
-        inner_next = [bi for bi in body if bi != nxt[0] and fn.blocks[bi]["term"]["k"] == "call" and callee(fn.blocks[bi]["term"]).endswith("::next")
-                      and from_needle_tail(fn.expr_of_operand(fn.blocks[bi]["term"]["args"][0]))]
-        if not inner_next:
-            continue
-        src = fn.expr_of_operand(fn.blocks[nxt[0]]["term"]["args"][0])
-        rng = [x for x in walk(src) if x[0] == "call" and str(x[1]).endswith("::index") and is_param(x[2][0], names["haystack"])]
-        if len(rng) != 1:
-            raise Inconclusive("fuzzy_match_greedy_: forward scan does not iterate over one sub-slice of the haystack")
-        r = rng[0][2][1]
-        if not (r[0] == "agg" and isinstance(r[2], dict) and "start" in r[2]):
-            raise Inconclusive("fuzzy_match_greedy_: forward scan range %s" % show(r)[:80])
-        fwd.append((h, r[2]["start"]))
-    ctx.floor("forward scans for needle[1..] in the greedy matcher", len(fwd), 1)
+        r = strip_casts(fn.expr_of_operand(t["args"][1]))
+        if r[0] == "agg" and str(r[1]).endswith("RangeFrom::RangeFrom") and isinstance(r[2], dict) and "start" in r[2]:
+            fwd.append((bi, r[2]["start"]))
+    ctx.floor("forward views haystack[X..] in the greedy matcher", len(fwd), 1)
 
     def atom(x):
         if is_param(x, P_START):
@@ -462,20 +455,32 @@ def rule_greedy_disjoint(ctx):
             return ("bin", e[1][1], unchecked(e[1][2]), unchecked(e[1][3]))
         return tuple(unchecked(x) if isinstance(x, tuple) else x for x in e)
 
-    def candidates(e, at, depth=0):
-        """values the expression can have when the loop at `at` is entered (reaching definitions of its locals)"""
+    def candidates(e, at, depth=0, stack=()):
+        """values the expression can have at block `at` (reaching definitions of its locals).  A definition of the form
+        `x = x + e` (unsigned, checked) only moves x forward: the candidates are those of the other definitions."""
         e = unchecked(strip_casts(e))
-        if e[0] in ("local", "arg") and depth < 4 and not (e[0] == "arg" and len(fn.defs.get(e[1], [])) <= 1):
+        if e[0] in ("local", "arg") and not (e[0] == "arg" and len(fn.defs.get(e[1], [])) <= 1):
+            if e[1] in stack:
+                return [("self", e[1])]
+            if depth > 6:
+                return [e]
             out = []
             for _, _, d in fn.def_exprs(e[1], at=at):
                 d = unchecked(strip_casts(d))
                 if d[0] == "arg" and d[1] == e[1]:
                     out.append(d)
-                else:
-                    out += candidates(d, at, depth + 1)
+                    continue
+                for c in candidates(d, at, depth + 1, stack + (e[1],)):
+                    if any(isinstance(x, tuple) and x and x[0] == "self" and x[1] == e[1] for x in walk(c)):
+                        c0 = c
+                        # x + (something unsigned): monotone, adds no new lower bound
+                        if c0[0] == "bin" and c0[1] == "Add" and (c0[2] == ("self", e[1]) or c0[3] == ("self", e[1])):
+                            continue
+                        raise Inconclusive("fuzzy_match_greedy_: %s is updated by %s" % (fn.names.get(e[1], "_%d" % e[1]), show(c0)[:80]))
+                    out.append(c)
             return out
         if e[0] == "bin" and e[1] in ("Add", "Sub"):
-            return [("bin", e[1], a, b) for a in candidates(e[2], at, depth + 1) for b in candidates(e[3], at, depth + 1)]
+            return [("bin", e[1], a_, b_) for a_ in candidates(e[2], at, depth + 1, stack) for b_ in candidates(e[3], at, depth + 1, stack)]
         return [e]
     need_contract = False
     for h, x in fwd:
